@@ -14,6 +14,8 @@ public constructors / setters.  Then, all through the public forward chain
      the independently computed ones (exact for integers, 1e-3 px for positions);
  (5b) a forward pass leaves the scan positions where they were (root-cause relation: if it fires the remaining
      oracles are skipped at that point; the message quotes the consequence for the predicted intensities);
+ (5c) within one forward pass, patch origin + fractional shift handed to the probe = position (modulo the object shape)
+     for every pattern: the two places that round a position must agree (root cause of tie-breaking mismatches);
  (1) predicted intensities == simulated intensities, for every batch of every batch size 1..J
      (also at the five perturbed states, against the simulator evaluated at the perturbed state);
  (2) every loss (l1/l2 x amplitude/intensity) of every batch of every batch size is zero to numerical
@@ -33,6 +35,12 @@ no padding either.  FINDING on the unchanged tree (class {"relation": "forward_k
 "clipped_to_last_object_pixel"}): the object has floor(fov/sampling) = 8 pixels but the positions run 0..8(.3);
 `clip_scan_positions` (default on) clamps the last scan row/column to pixel 7 inside `dset.forward`, overwriting
 `scan_positions_px`, and the ground truth no longer predicts the data (rel. intensity error ~0.5).
+
+"half_pixel_ties" (48 points quick, 576 thorough): positions that are exact half-pixel ties in the library's own float32
+arithmetic (dyadic sampling and steps; checked at run time).  The other families are kept away from ties (`.fragile`),
+because there the nearest pixel is a convention.  Here the convention is left free but CONSISTENCY is demanded: the library
+passes a point if every oracle holds against the simulator with ties half-to-even everywhere, or with ties half-up everywhere
+(data, geometry and all oracles recomputed under that convention), and (5c) must hold in any case.
 
 Stated limit. `com_fit_function="constant"` shifts every pattern by the data-dependent mean centre of mass
 with sinc interpolation; "zero to numerical precision" is only defined when that is an integer pixel.  It
@@ -59,13 +67,15 @@ TECHNIQUE = "full configuration lattice x every batch partition on the real forw
 CLAIM = (
     "For every point of a stated lattice (object type x slices with unequal thicknesses x incoherent probe modes x "
     "detector ROI incl. non-square x raster grid x integer/fractional pixel steps x object padding; descan no_shift, plus "
-    "constant descan on vacuum data, plus an unpadded family whose last scan row lies on the object edge) the library's preprocessing + forward pipeline, evaluated at the ground truth of data "
+    "constant descan on vacuum data, plus an unpadded family whose last scan row lies on the object edge, plus a family of exact "
+    "half-pixel positions judged under either tie convention applied consistently) the library's preprocessing + forward pipeline, evaluated at the ground truth of data "
     "produced by an independent NumPy simulator, predicts the simulated patterns for every batch of every batch size 1..J; "
     "all four l1/l2 amplitude/intensity losses vanish to numerical precision; each member of a fixed perturbation alphabet "
     "raises every l2 loss by >= 1e4x and every l1 loss by >= 1e3x, with batch-fraction-consistent per-batch losses for every "
     "batch size at a perturbed state; the l2 gradients at the ground truth are "
     "<= 1e-3 of those at the perturbed states; and the library's object shape, padding, pixel positions and patch indices "
-    "equal independently computed ones and are not moved by a forward pass. Exploration is the right level: the property quantifies over configurations and "
+    "equal independently computed ones, are not moved by a forward pass, and patch origin + fractional probe shift = position "
+    "for every pattern. Exploration is the right level: the property quantifies over configurations and "
     "batch schedules, which are enumerated completely; array contents are seeded alphabet members."
 )
 NOTE = (
@@ -76,7 +86,8 @@ NOTE = (
 RULE = (
     "Full Cartesian product of the stated alphabets, simplest first; at every point every contiguous batch partition for "
     "batch size 1..J and all four loss types at the ground truth and at the seeded-noise perturbed state, the other "
-    "perturbed states on the full batch. Points whose independently "
+    "perturbed states on the full batch. Exact half-pixel positions are enumerated only in the half_pixel_ties family, where a "
+    "point passes under half-to-even or half-up ties applied consistently. Points whose independently "
     "computed object grid has a zero-length axis are excluded and counted. A point is non-trivial when it is not excluded; "
     "distinct outcomes are distinct (object shape, adjusted padding, J, wrap-around, fractional) geometry signatures."
 )
